@@ -147,6 +147,10 @@ Fixpoint index_of (j : nat) (p : list nat) : nat :=
   | x :: r => if Nat.eqb x j then O else S (index_of j r)
   end.
 Definition inv_perm (p : list nat) : list nat := map (fun j => index_of j p) (seq 0 (length p)).
+(* the table of "first reorder by p, then reorder the result by q": new position j takes the
+   intermediate column q[j], which is the original column p[q[j]] *)
+Definition compose (p q : list nat) : list nat := map (fun j => nth j p O) q.
+Definition in_range (n : nat) (q : list nat) : bool := forallb (fun j => Nat.ltb j n) q.
 
 (* ---------- decidable hypotheses of the theorems ---------- *)
 Definition is_ok {A} (r : res A) : bool := match r with Ok _ => true | Err => false end.
